@@ -545,10 +545,69 @@ def corpus():
     ]
 
 
+def evaluate_shards(ctx: Ctx, specs):
+    """handle_interaction_order called directly on a summary frame that a library caller assembled from several shards with
+    pd.concat (row labels repeat): the aggregated table still gives, per constituent, the median score of the interactions it
+    takes part in.  Scores are multiples of 1/8 (medians exact)."""
+    import random
+
+    import pandas as pd
+    from outrank.task_summary import handle_interaction_order
+    for spec in specs:
+        r = random.Random(f'shards:{spec["seed"]}')
+        base = r.sample(['a', 'b', 'c', 'd', 'e', 'BRAND', 'x y', 'é'], spec['k'])
+        h = spec['heuristic']
+        shards, rows = [], []
+        for _ in range(spec['shards']):
+            part = []
+            for _ in range(r.randint(1, 5)):
+                cs = r.sample(base, min(len(base), r.choice([1, 2, 2, 3])))
+                part.append((' AND '.join(cs), r.randint(-16, 40) / 8))
+            rows += part
+            shards.append(pd.DataFrame({'Feature': [p[0] for p in part], f'Score {h}': [p[1] for p in part]}))
+        df = pd.concat(shards, ignore_index=(spec['index'] == 'fresh'))
+        want = {}
+        for name, sc in rows:
+            if 'AND' in name:
+                for c in name.split(' AND '):
+                    want.setdefault(c, []).append(Fraction(sc))
+        want = {c: fmedian(v) for c, v in want.items()}
+        ctx.evaluations += 1
+        ctx.count('interaction-summary-of-concatenated-shards:' + spec['index'])
+        d = tempfile.mkdtemp(prefix='c18s_')
+        try:
+            logging.disable(logging.CRITICAL)
+            try:
+                handle_interaction_order(df, d, h, 2)
+            except Exception as e:          # noqa: BLE001
+                ctx.oracle_fail('agg-raises', f'handle_interaction_order on {len(df)} rows from {spec["shards"]} concatenated shards (row labels {list(df.index)}) raised '
+                                f'{type(e).__name__}: {e}', {'shards_case': spec})
+                continue
+            finally:
+                logging.disable(logging.NOTSET)
+            path = os.path.join(d, 'feature_singles_aggregated.tsv')
+            got = {}
+            for rec in (read_table(path) or []):
+                got[rec[0]] = Fraction(rec[1])
+            if got != want:
+                bad = next((c for c in want if got.get(c) != want[c]), next(iter(got), None))
+                ctx.oracle_fail('agg-median', f'handle_interaction_order on the frame {rows} assembled from {spec["shards"]} shards with pd.concat (row labels '
+                                f'{list(df.index)}): constituent {bad!r} gets {float(got[bad]) if bad in got else None}, the median of its interactions is '
+                                f'{float(want[bad]) if bad in want else None}', {'shards_case': spec})
+        finally:
+            shutil.rmtree(d, ignore_errors=True)
+
+
+def shard_specs(rng, n):
+    return [{'seed': rng.randrange(10 ** 9), 'k': rng.choice([2, 3, 4, 5]), 'shards': rng.choice([1, 2, 2, 3]), 'heuristic': rng.choice(['MI-numba-randomized', 'AMI']),
+             'index': rng.choice(['kept', 'kept', 'fresh'])} for _ in range(n)]
+
+
 def run(ctx: Ctx):
     n = 14000 if ctx.thorough() else 1800
     cases = corpus() + [gen_case(ctx.rng, ctx.thorough()) for _ in range(n)]
     evaluate(ctx, cases)
+    evaluate_shards(ctx, shard_specs(ctx.rng, 1500 if ctx.thorough() else 200))
     # end-to-end summary family (drawn last, so that the cases above do not depend on it)
     corr_E2E.evaluate_summary(ctx, corr_E2E.corpus_summary() + corr_E2E.gen_summary_cases(ctx.rng, ctx.thorough()))
 
@@ -559,6 +618,7 @@ def search(ctx: Ctx):
     sub.rng.seed(f'search:{ctx.seed}')
     cases = [gen_case(sub.rng, True, family=sub.rng.choice(['wf', 'wf', 'retyped', 'floats'])) for _ in range(4000)]
     evaluate(sub, cases, oracle_only=True)
+    evaluate_shards(sub, shard_specs(sub.rng, 800))
     corr_E2E.evaluate_summary(sub, corr_E2E.corpus_summary() + corr_E2E.gen_summary_cases(sub.rng, True)[:80], oracle_only=True)
     return sub.oracle_failures
 
@@ -567,6 +627,9 @@ def replay(ctx: Ctx, payload):
     c = payload['case']
     if isinstance(c, dict) and c.get('e2e'):
         corr_E2E.evaluate_summary(ctx, [c])
+        return
+    if isinstance(c, dict) and 'shards_case' in c:
+        evaluate_shards(ctx, [c['shards_case']])
         return
     c.setdefault('violates', None)
     evaluate(ctx, [c])
